@@ -692,6 +692,30 @@ func checkZipArchive(c *core.Case) ([]core.Violation, bool) {
 		if err := mzip.Unzip(target, zipMod, zpath); err == nil && len(got) > 0 {
 			add("c12:nonempty-target", "Unzip into a non-empty target directory succeeded")
 		}
+		// a target that is not empty and whose first-level names are links leading out of it: whatever happens,
+		// nothing may appear outside the target
+		if len(got) > 0 {
+			t2 := filepath.Join(sentinel, "parent", "target2")
+			outside := filepath.Join(sentinel, "parent", "outside")
+			os.MkdirAll(t2, 0755)
+			os.MkdirAll(outside, 0755)
+			os.WriteFile(filepath.Join(t2, "stale"), []byte("stale"), 0644)
+			linked := map[string]bool{}
+			for _, k := range got {
+				first := strings.SplitN(k, "/", 2)[0]
+				if first != k && !linked[first] {
+					linked[first] = true
+					os.Symlink("../outside", filepath.Join(t2, first))
+				}
+			}
+			beforeOut := snapshot(outside)
+			err := mzip.Unzip(t2, zipMod, zpath)
+			if afterOut := snapshot(outside); !core.Eq(beforeOut, afterOut) {
+				add("c12:escape", "Unzip into a non-empty target with a link leading out of it (err=%v) created %q outside the target", err, afterOut)
+			} else if err == nil {
+				add("c12:nonempty-target", "Unzip into a non-empty target directory succeeded")
+			}
+		}
 	}
 	return vs, len(in.Entries) > 1
 }
